@@ -67,9 +67,33 @@ var ErrSize = errors.New("model: size budget exhausted")
 var ErrUnsupported = errors.New("model: construct outside the modelled language")
 var ErrMapOrder = errors.New("model: outcome depends on the unspecified map iteration order")
 
-// orderInsensitive: the body consists only of probe(...) calls whose arguments are literals or the loop variable.
-func orderInsensitive(body []*gen.Node, loopVar string) bool {
+// orderInsensitive: the body consists only of probe(...) calls whose arguments are literals or loop variables, and
+// of nested for-in loops whose bodies are of the same kind (the multiset of records is then independent of the
+// order in which the keys are visited).
+func orderInsensitive(body []*gen.Node, loopVars ...string) bool {
+	isVar := func(n string) bool {
+		for _, v := range loopVars {
+			if v == n {
+				return true
+			}
+		}
+		return false
+	}
 	for _, s := range body {
+		if s.Kind == gen.ForIn && s.X != nil && s.Y != nil {
+			switch s.Y.Kind {
+			case gen.Ident, gen.Map, gen.List, gen.Str:
+			default:
+				return false
+			}
+			if isVar(s.X.Name) {
+				return false
+			}
+			if !orderInsensitive(s.Body, append(append([]string{}, loopVars...), s.X.Name)...) {
+				return false
+			}
+			continue
+		}
 		if s.Kind != gen.Call || s.Name != "probe" {
 			return false
 		}
@@ -77,7 +101,7 @@ func orderInsensitive(body []*gen.Node, loopVar string) bool {
 			switch a.Kind {
 			case gen.Str, gen.Int, gen.Bool, gen.Nil:
 			case gen.Ident:
-				if a.Name != loopVar {
+				if !isVar(a.Name) {
 					return false
 				}
 			default:
@@ -238,13 +262,14 @@ type Interp struct {
 	MapLoop bool             // a for-in over a map with >= 2 keys was executed: trace order is not unique
 	Stdout  *strings.Builder // what printf() wrote (shared with callees)
 
-	scopes  []scope
-	exit    bool
-	brk     bool
-	cont    bool
-	stmt    *gen.Node
-	depth   int
-	eqDepth int
+	scopes   []scope
+	exit     bool
+	brk      bool
+	cont     bool
+	stmt     *gen.Node
+	depth    int
+	eqDepth  int
+	loopVars []string // variables of the for-in loops being executed (innermost last)
 
 	// Builtins outside the core (field builtins etc.) are supplied by the caller.
 	Extra map[string]func(in *Interp, call *gen.Node) (any, error)
@@ -467,6 +492,8 @@ func (in *Interp) forIn(s *gen.Node) error {
 	}
 	in.push()
 	defer in.pop()
+	in.loopVars = append(in.loopVars, s.X.Name)
+	defer func() { in.loopVars = in.loopVars[:len(in.loopVars)-1] }()
 	body := in.scopes[len(in.scopes)-1]
 	clear := func() {
 		for k := range body {
@@ -511,7 +538,7 @@ func (in *Interp) forIn(s *gen.Node) error {
 		sort.Strings(keys)
 		if len(keys) >= 2 {
 			// iteration order is unspecified: only bodies whose effect does not depend on it are modelled
-			if !orderInsensitive(s.Body, s.X.Name) {
+			if !orderInsensitive(s.Body, in.loopVars...) {
 				return ErrMapOrder
 			}
 			if _, outer := in.lookupVar(s.X.Name); outer {
